@@ -53,7 +53,7 @@ func crdtScenarios(tier string) []crdtScenario {
 		}
 	}
 	return []crdtScenario{
-		mk("plain N=2 L=3 pre-created", 2, 3, true, nil),
+		mk("plain N=2 L=4 pre-created", 2, 4, true, nil),
 		mk("plain N=2 L=2 with create", 2, 2, false, nil),
 	}
 }
@@ -64,7 +64,7 @@ func runCRDT(prop string, args []string) int {
 	}
 	r := rep.New(prop, "model_checking")
 	tier := rep.Tier()
-	variants := 4
+	variants := 3
 	budget := 8 * time.Minute
 	if tier == "thorough" {
 		variants = 8
